@@ -110,12 +110,14 @@ def same_model(obj, m, what="result", exact=True, tol=1e-9):
 # gv configurations (commensurate by construction)
 
 @st.composite
-def s_gv(draw, sps_max=128, with_extra=False):
+def s_gv(draw, sps_max=128, with_extra=False, noncommensurate=False):
     sps = draw(st.one_of(st.sampled_from([1, 2, 3, 4, 5, 7, 8, 15, 16, 17, 32, 64, 128]), st.integers(1, sps_max)))
     sps = min(sps, sps_max)
     R = draw(st.one_of(st.sampled_from([1e9, 2.5e9, 10e9, 25e9, 40e9, 1e6, 1e11]), st.floats(6, 11).map(lambda e: float(round(10 ** e)))))
-    form = draw(st.sampled_from(["sps_R", "sps_fs", "R_fs", "default"]))
+    form = draw(st.sampled_from(["sps_R", "sps_fs", "R_fs", "default"] + (["R_fs_nc", "fs_nc"] if noncommensurate else [])))
     cfg = {"sps": sps, "R": R, "form": form}
+    if form.endswith("_nc"):
+        cfg["frac"] = draw(st.floats(-0.45, 0.45))
     if with_extra:
         cfg["wavelength"] = draw(st.one_of(st.none(), st.floats(1260e-9, 1650e-9)))
     return cfg
@@ -138,6 +140,14 @@ def apply_gv(cfg):
             gv(sps=sps, fs=fs, **kw)
         elif cfg["form"] == "R_fs":
             gv(R=R, fs=fs, **kw)
+        elif cfg["form"] == "R_fs_nc":      # fs/R not an integer: sps is rounded, the fs passed stays in force
+            fs = R * max(0.6, sps + cfg["frac"])
+            gv(R=R, fs=fs, **kw)
+            return int(np.round(fs / R)), R, fs
+        elif cfg["form"] == "fs_nc":        # fs alone against the default slot rate
+            fs = 1e9 * max(0.6, sps + cfg["frac"])
+            gv(fs=fs, **kw)
+            return int(np.round(fs / 1e9)), 1e9, fs
         else:
             if kw:
                 gv(**kw)
